@@ -265,7 +265,8 @@ class Tomographer(Client):
             return None
         c = w.pool["c"][cid]
         nq = c.input_modes // 2
-        if c.n_modes > 12:
+        from .ops import csize  # noqa: PLC0415
+        if c.n_modes > 12 or csize(w, cid)[0] > 40 or csize(w, cid)[1] > 5:
             return None
         k = r.choice(["gate1", "gate1", "gate1", "rot", "rot", "ent", "ent",
                       "anc", "anc", "prim", "lossy", "rewrite"])
